@@ -3,6 +3,7 @@ package main
 import (
 	"encoding/json"
 	"fmt"
+	"runtime"
 	"sort"
 	"strings"
 
@@ -763,10 +764,18 @@ func RunC15(w *Workload, st *Stats, maxYields uint64) *RunReport {
 	}
 	var evs []ev
 	var viol *Violation
+	gcBetween := strings.Contains(w.Note, "gc-between")
+	gcs := uint64(0)
 	body := func() {
 		compiled, cout := callCompile(text)
 		for pi, pol := range w.Policies {
 			for variant := 0; variant < 2; variant++ {
+				if gcBetween {
+					// earlier documents are garbage by now: let the allocator hand
+					// their addresses to the next, equal document (fault F6)
+					runtime.GC()
+					gcs++
+				}
 				doc, err := DecOrd(docEnc, uint64(pi*2+variant)*0x9e3779b97f4a7c15)
 				if err != nil {
 					rep.Inconclusive = err.Error()
@@ -810,6 +819,7 @@ func RunC15(w *Workload, st *Stats, maxYields uint64) *RunReport {
 	res := simrt.Run([]func(){body}, w.Sched, maxYields)
 	rep.Explicit = w.Sched
 	noteSchedule(st, w, res)
+	st.GCs += gcs
 	dg := hmix(res.Digest, res.MapDigest)
 	if viol != nil {
 		rep.Viol = viol
